@@ -11,7 +11,7 @@ COQ_PREAMBLE = ("Inductive lcase := CMgm (c : M_Mgm.case) (r : M_Mgm.rcase) "
                 "Definition lcheck (c : lcase) : bool := match c with CMgm x r => M_Mgm.check_case x && "
                 "M_Mgm.rcheck_case r | CMgm2 x r => M_Mgm2.check_case2 x && M_Mgm2r.r2check_case r end.")
 OBLIGATIONS = ['mgm_no_move_1opt_partial', 'mgm_isolated_1opt', 'mgm_improvable_moves_partial', 'mgm2_no_move_1opt_refuted',
-               'mgm_async_no_move_1opt', 'mgm2_no_commit_no_move_1opt_partial']
+               'mgm_async_no_move_1opt', 'mgm2_no_commit_no_move_1opt_partial', 'mgm2_async_no_commit_no_move_1opt']
 N_QUICK, N_THOROUGH = 300, 6000
 PARALLEL = 8
 SHARD = 40
@@ -39,7 +39,7 @@ MODELLED = ("handler models of mgm.py / mgm2.py compared on full event traces, f
             "run (r2check_case: mgm2_next iterated from the observed initial assignment with the observed per-node "
             "draws equals the observed assignment at every cycle boundary of the real execution)")
 META = dict(
-    level_text=('Partial proof (Coq). Proved for every DCOP, min and max, all draws: if one complete MGM cycle (as a function on assignments) changes no value then no variable can improve the global cost by changing alone (variables without neighbour: by their start-time choice), and conversely an improvable variable forces some change. ALSO proved (deepening, P_Mgm3*.v): the refinement of the asynchronous handler model to the cycle function under EVERY schedule, hence mgm_async_no_move_1opt: if no variable changed its value between a reachable configuration where all computations have completed j cycles and one where they have completed j+1, no variable can improve the global cost alone - the full MGM statement (the refinement is additionally checked on every run by the round-level and full-trace correspondences). MGM2: refuted on the code as it is (theorem mgm2_no_move_1opt_refuted, known finding C04-mgm2-idle-after-commitment). Deepening 2: a round-level MGM2 function (mgm2_next, checked against the cycle-boundary assignments of every real MGM2 run, refinement to the handlers not proved) with the guarded theorem mgm2_no_commit_no_move_1opt_partial: in a round in which no node committed to a coordinated move, if no variable changes its value then no participating variable can improve the global cost alone (all DCOPs, min/max, all draws).'),
+    level_text=('Partial proof (Coq). Proved for every DCOP, min and max, all draws: if one complete MGM cycle (as a function on assignments) changes no value then no variable can improve the global cost by changing alone (variables without neighbour: by their start-time choice), and conversely an improvable variable forces some change. ALSO proved (deepening, P_Mgm3*.v): the refinement of the asynchronous handler model to the cycle function under EVERY schedule, hence mgm_async_no_move_1opt: if no variable changed its value between a reachable configuration where all computations have completed j cycles and one where they have completed j+1, no variable can improve the global cost alone - the full MGM statement (the refinement is additionally checked on every run by the round-level and full-trace correspondences). MGM2: refuted on the code as it is (theorem mgm2_no_move_1opt_refuted, known finding C04-mgm2-idle-after-commitment). Deepening 2: a round-level MGM2 function (mgm2_next, checked against the cycle-boundary assignments of every real MGM2 run, refinement to the handlers not proved) with the guarded theorem mgm2_no_commit_no_move_1opt_partial: in a round in which no node committed to a coordinated move, if no variable changes its value then no participating variable can improve the global cost alone (all DCOPs, min/max, all draws). Deepening 3 (P_Mgm2pA/B/C.v): the refinement of the asynchronous MGM2 handlers to mgm2_next is now proved for every schedule (Prop_C03.mgm2_refines_rounds / mgm2_payload_invariant), hence mgm2_async_no_commit_no_move_1opt: between any reachable configuration at cycle boundary j and any at boundary j+1, if nobody committed to a coordinated move in that cycle and no variable changed, no variable with a neighbour can improve the global cost alone.'),
     level_note=("Trusted: Coq kernel/vm_compute, M_Mgm.v / M_Mgm2.v + Net.v as renderings of the Python code, the "
                 "thread-free netdriver, integer costs inside int32."),
     technique="Coq proof over an executable round-level model + round-level and full-trace correspondence",
